@@ -230,7 +230,7 @@ package datastore
 // ---------------------------------------------------------------------------
 // C20: no-panic sweep over the request validation and conversion functions of the datastore
 //@ sweep C20: (*Datastore).validatePath (*Datastore).validateUpdate (*Datastore).SdcpbTransactionIntentToInternalTI (*Datastore).expandAndConvertIntent
-//@   pathIsKeyAsLeaf validateFieldValue validateLeafTypeValue validateLeafListValue (*Datastore).storeSyncMsg (*Datastore).subscribeResponseFromCacheUpdate
+//@   pathIsKeyAsLeaf validateFieldValue validateLeafTypeValue validateLeafListValue (*Datastore).storeSyncMsg (*Datastore).subscribeResponseFromCacheUpdate isKeyOf
 
 // ---------------------------------------------------------------------------
 // C14: request-side plumbing of GetData. What the cache returns for a prefix read is the cache library's business
